@@ -3,7 +3,7 @@ C16: the inventory of potential failure sites on the indexing path that the inde
 (`OrdModel/Index/{Sats,Inscriptions,Runes,Block}.lean`) was written against, as of the day the
 model was written.  `tools/extractors/panic_sites.py` re-derives the same list from the source
 text of /repo on every check run (`OrdModel/Generated/PanicSites.lean`) and
-`Theorems/C16.lean : c16_gen_panic_sites` proves the two equal: a new, removed, moved or edited
+`Theorems/C16.lean : c16_gen_panic_sites` proves the two equal (lines are compared with LOCAL variable names replaced by `_`, so renaming a local does not matter): a new, removed, moved or edited
 site breaks that obligation and forces a human to re-read the model.
 
 Every entry is annotated with the model `panic` branch it corresponds to and what discharges it,
@@ -13,23 +13,23 @@ namespace Ord.Index.PanicSitesExpected
 
 def expected : List (String × String × String × String) := [
   -- usize→u32 / u32→usize `try_into`: bounded by the number of transactions / outputs of a block (block size ≤ 4 MB); not modelled
-  ("updater.rs", "index_block", "unwrap", "rune_updater.index_runes(u32::try_from(i).unwrap(), tx, *txid)?;"),
+  ("updater.rs", "index_block", "unwrap", "_.index_runes(u32::try_from(_).unwrap(), _, *_)?;"),
   -- height u32: < 2^32 blocks; `State.height + 1` unbounded in the model
   ("updater.rs", "index_block", "arith", "self.height += 1;"),
   -- bookkeeping counter (u64, +1 per block/output/range): cannot overflow in 2^64 steps; not modelled
-  ("updater.rs", "index_block", "arith", "self.outputs_traversed += outputs_in_block;"),
+  ("updater.rs", "index_block", "arith", "self.outputs_traversed += _;"),
   -- Instant subtraction (monotonic clock, log line only); not modelled
-  ("updater.rs", "index_block", "arith", "(Instant::now() - start).as_millis(),"),
+  ("updater.rs", "index_block", "arith", "(Instant::now() - _).as_millis(),"),
   -- `?` sites: errors of redb, the RPC client or a channel (environment, DESIGN §4): the model has no `.err` branch (c16_never_err)
   ("updater.rs", "index_block", "try-count", "14"),
   -- fetcher channel must be empty (`Previous block did not consume all inputs`): only without full UTXO index; environment (fetchOrder, C15); not modelled
   ("updater.rs", "index_utxo_entries", "assert", "assert!("),
   -- pattern inside the assert above, not a constructed error
-  ("updater.rs", "index_utxo_entries", "err", "matches!(txout_receiver.try_recv(), Err(TryRecvError::Empty)),"),
+  ("updater.rs", "index_utxo_entries", "err", "matches!(_.try_recv(), Err(TryRecvError::Empty)),"),
   -- next sequence number u32: < 2^31 inscriptions (validChain.fewInscriptions); model uses `entries.length`
-  ("updater.rs", "index_utxo_entries", "arith", ".map(|(number, _id)| number.value() + 1)"),
+  ("updater.rs", "index_utxo_entries", "arith", ".map(|(_, _)| _.value() + 1)"),
   -- `Sat + u64` of the block's first sat and subsidy: ≤ 2.1e15 (C29); model `startingSat + subsidy` unbounded
-  ("updater.rs", "index_utxo_entries", "arith", "coinbase_inputs.extend(SatRange::store((start.n(), (start + h.subsidy()).n())));"),
+  ("updater.rs", "index_utxo_entries", "arith", "_.extend(SatRange::store((_.n(), (_ + _.subsidy()).n())));"),
   -- bookkeeping counter (u64, +1 per block/output/range): cannot overflow in 2^64 steps; not modelled
   ("updater.rs", "index_utxo_entries", "arith", "self.sat_ranges_since_flush += 1;"),
   -- bookkeeping counter (u64, +1 per block/output/range): cannot overflow in 2^64 steps; not modelled
@@ -41,49 +41,49 @@ def expected : List (String × String × String × String) := [
   -- fetcher channel closed: only without full UTXO index (environment); not modelled
   ("updater.rs", "index_utxo_entries", "err", "anyhow!("),
   -- `Some` assigned on both branches just above (index_sats); not a model branch
-  ("updater.rs", "index_utxo_entries", "unwrap", "input_sat_ranges.as_ref().unwrap(),"),
+  ("updater.rs", "index_utxo_entries", "unwrap", "_.as_ref().unwrap(),"),
   -- vout enumerates tx.output and the Vec was built from tx.output: same length; model zips
-  ("updater.rs", "index_utxo_entries", "index", "output_utxo_entries[vout].push_value(txout.value.to_sat(), self.index);"),
+  ("updater.rs", "index_utxo_entries", "index", "_[_].push_value(_.value.to_sat(), self.index);"),
   -- usize→u32 / u32→usize `try_into`: bounded by the number of transactions / outputs of a block (block size ≤ 4 MB); not modelled
-  ("updater.rs", "index_utxo_entries", "unwrap", "let vout = u32::try_from(vout).unwrap();"),
+  ("updater.rs", "index_utxo_entries", "unwrap", "let _ = u32::try_from(_).unwrap();"),
   -- `chunks_exact(11)` chunk → `[u8; 11]`: length is 11 by construction; not modelled
-  ("updater.rs", "index_utxo_entries", "unwrap", "let (start, end) = SatRange::load(chunk.try_into().unwrap());"),
+  ("updater.rs", "index_utxo_entries", "unwrap", "let (_, _) = SatRange::load(_.try_into().unwrap());"),
   -- `end - start` of a stored range (start ≤ end: ranges invariant C01) and lost-sat total ≤ supply; model `lostRare` unbounded Nat with truncated `-` (no panic branch; see notes)
-  ("updater.rs", "index_utxo_entries", "arith", "lost_sats += end - start;"),
+  ("updater.rs", "index_utxo_entries", "arith", "_ += _ - _;"),
   -- `end - start` of a stored range (start ≤ end: ranges invariant C01) and lost-sat total ≤ supply; model `lostRare` unbounded Nat with truncated `-` (no panic branch; see notes)
-  ("updater.rs", "index_utxo_entries", "arith", "lost_sats += end - start;"),
+  ("updater.rs", "index_utxo_entries", "arith", "_ += _ - _;"),
   -- `?` sites: errors of redb, the RPC client or a channel (environment, DESIGN §4): the model has no `.err` branch (c16_never_err)
   ("updater.rs", "index_utxo_entries", "try-count", "34"),
   -- vout enumerates tx.output, slice built from tx.output; model zips
-  ("updater.rs", "index_transaction_output_script_pubkeys", "index", "output_utxo_entries[vout].push_script_pubkey(txout.script_pubkey.as_bytes(), self.index);"),
+  ("updater.rs", "index_transaction_output_script_pubkeys", "index", "_[_].push_script_pubkey(_.script_pubkey.as_bytes(), self.index);"),
   -- `?` sites: errors of redb, the RPC client or a channel (environment, DESIGN §4): the model has no `.err` branch (c16_never_err)
   ("updater.rs", "index_transaction_output_script_pubkeys", "try-count", "0"),
   -- sum of byte lengths of in-memory slices: bounded by memory; not modelled
   ("updater.rs", "index_transaction_sats", "sum", ".sum::<usize>(),"),
   -- usize→u32 / u32→usize `try_into`: bounded by the number of transactions / outputs of a block (block size ≤ 4 MB); not modelled
-  ("updater.rs", "index_transaction_sats", "unwrap", "vout: vout.try_into().unwrap(),"),
+  ("updater.rs", "index_transaction_sats", "unwrap", "_: _.try_into().unwrap(),"),
   -- model: indexTx `insufficient inputs for transaction outputs` (`fillOutput = none`) — discharged by value conservation (c16_sats_sufficient)
   ("updater.rs", "index_transaction_sats", "expect", ".expect(\"\")"),
   -- `chunks_exact(11)` chunk → `[u8; 11]`: length is 11 by construction; not modelled
   ("updater.rs", "index_transaction_sats", "unwrap", ".unwrap(),"),
   -- remaining ≤ value (loop invariant); model `done` counts upward
-  ("updater.rs", "index_transaction_sats", "arith", "offset: output.value.to_sat() - remaining,"),
+  ("updater.rs", "index_transaction_sats", "arith", "_: _.value.to_sat() - _,"),
   -- stored range start ≤ end (C01); model truncated `-`, no panic branch (see notes)
-  ("updater.rs", "index_transaction_sats", "arith", "let count = range.1 - range.0;"),
+  ("updater.rs", "index_transaction_sats", "arith", "let _ = _.1 - _.0;"),
   -- bookkeeping counter (u64, +1 per block/output/range): cannot overflow in 2^64 steps; not modelled
   ("updater.rs", "index_transaction_sats", "arith", "self.sat_ranges_since_flush += 1;"),
   -- < range.1 ≤ 2.1e15
-  ("updater.rs", "index_transaction_sats", "arith", "let middle = range.0 + remaining;"),
+  ("updater.rs", "index_transaction_sats", "arith", "let _ = _.0 + _;"),
   -- assigned size ≤ remaining by the `count > remaining` test; model `rem + 1 - (e - s)`
-  ("updater.rs", "index_transaction_sats", "arith", "remaining -= assigned.1 - assigned.0;"),
+  ("updater.rs", "index_transaction_sats", "arith", "_ -= _.1 - _.0;"),
   -- assigned size ≤ remaining by the `count > remaining` test; model `rem + 1 - (e - s)`
-  ("updater.rs", "index_transaction_sats", "arith", "remaining -= assigned.1 - assigned.0;"),
+  ("updater.rs", "index_transaction_sats", "arith", "_ -= _.1 - _.0;"),
   -- bookkeeping counter (u64, +1 per block/output/range): cannot overflow in 2^64 steps; not modelled
-  ("updater.rs", "index_transaction_sats", "arith", "*sat_ranges_written += 1;"),
+  ("updater.rs", "index_transaction_sats", "arith", "*_ += 1;"),
   -- bookkeeping counter (u64, +1 per block/output/range): cannot overflow in 2^64 steps; not modelled
-  ("updater.rs", "index_transaction_sats", "arith", "*outputs_traversed += 1;"),
+  ("updater.rs", "index_transaction_sats", "arith", "*_ += 1;"),
   -- vout enumerates tx.output; model zips
-  ("updater.rs", "index_transaction_sats", "index", "output_utxo_entries[vout].push_sat_ranges(&sats, self.index);"),
+  ("updater.rs", "index_transaction_sats", "index", "_[_].push_sat_ranges(&_, self.index);"),
   -- `?` sites: errors of redb, the RPC client or a channel (environment, DESIGN §4): the model has no `.err` branch (c16_never_err)
   ("updater.rs", "index_transaction_sats", "try-count", "1"),
   -- `?` sites: errors of redb, the RPC client or a channel (environment, DESIGN §4): the model has no `.err` branch (c16_never_err)
@@ -91,77 +91,77 @@ def expected : List (String × String × String × String) := [
   -- Σ output values as u64: validChain.valuesInRange (Σ out ≤ 21M BTC < 2^64); model `totalOut` unbounded
   ("inscription_updater.rs", "index_inscriptions", "sum", ".sum::<u64>();"),
   -- total_input_value + subsidy ≤ 50 BTC on a coinbase
-  ("inscription_updater.rs", "index_inscriptions", "arith", "total_input_value += Height(self.height).subsidy();"),
+  ("inscription_updater.rs", "index_inscriptions", "arith", "_ += Height(self.height).subsidy();"),
   -- input_index enumerates tx.input; input_utxo_entries has one entry per input for tx_offset ≠ 0; for the coinbase (empty Vec) the loop `continue`s on the null input first — needs `coinbase has only the null input` (validChain.coinbaseShape); model pairs inputs with entries
-  ("inscription_updater.rs", "index_inscriptions", "index", "let mut transferred_inscriptions = input_utxo_entries[input_index].parse_inscriptions();"),
+  ("inscription_updater.rs", "index_inscriptions", "index", "let mut _ = _[_].parse_inscriptions();"),
   -- model: scanOld `sequence_number_to_entry.get(sequence_number).unwrap()` — every seq in a utxo entry is < entries.length (C04 hypothesis `EntriesOk`)
   ("inscription_updater.rs", "index_inscriptions", "unwrap", ".unwrap()"),
   -- offset < value of the input ≤ 21M BTC (C03 offsets in range)
-  ("inscription_updater.rs", "index_inscriptions", "arith", "let offset = total_input_value + old_satpoint_offset;"),
+  ("inscription_updater.rs", "index_inscriptions", "arith", "let _ = _ + _;"),
   -- i32-inferred counter of inscriptions at one offset within one transaction: bounded by the envelopes of a block; model `bumpOffset` unbounded
   ("inscription_updater.rs", "index_inscriptions", "arith", ".1 += 1;"),
   -- as above: one entry per non-null input
-  ("inscription_updater.rs", "index_inscriptions", "index", "let input_value = input_utxo_entries[input_index].total_value();"),
+  ("inscription_updater.rs", "index_inscriptions", "index", "let _ = _[_].total_value();"),
   -- Σ input values ≤ 21M BTC (validChain.valuesInRange + utxo values invariant)
-  ("inscription_updater.rs", "index_inscriptions", "arith", "total_input_value += input_value;"),
+  ("inscription_updater.rs", "index_inscriptions", "arith", "_ += _;"),
   -- usize→u32 / u32→usize `try_into`: bounded by the number of transactions / outputs of a block (block size ≤ 4 MB); not modelled
-  ("inscription_updater.rs", "index_inscriptions", "unwrap", "if inscription.input != u32::try_from(input_index).unwrap() {"),
+  ("inscription_updater.rs", "index_inscriptions", "unwrap", "if _.input != u32::try_from(_).unwrap() {"),
   -- model: curseOf `id_to_sequence_number.get(id).unwrap()` — discharged by `inscribed ids of old flotsam are indexed` (C04 hypothesis `EntriesOk`)
-  ("inscription_updater.rs", "index_inscriptions", "unwrap", "self.id_to_sequence_number.get(id.store())?.unwrap().value();"),
+  ("inscription_updater.rs", "index_inscriptions", "unwrap", "self.id_to_sequence_number.get(_.store())?.unwrap().value();"),
   -- model: curseOf `sequence_number_to_entry.get(initial).unwrap()` — id2seq values < entries.length (`EntriesOk`)
   ("inscription_updater.rs", "index_inscriptions", "unwrap", ".unwrap()"),
   -- i32-inferred counter of inscriptions at one offset within one transaction: bounded by the envelopes of a block; model `bumpOffset` unbounded
   ("inscription_updater.rs", "index_inscriptions", "arith", ".1 += 1;"),
   -- u32 counter of envelopes in one tx (≤ block size)
-  ("inscription_updater.rs", "index_inscriptions", "arith", "id_counter += 1;"),
+  ("inscription_updater.rs", "index_inscriptions", "arith", "_ += 1;"),
   -- consensus_encode into a Vec cannot fail; not modelled
   ("inscription_updater.rs", "index_inscriptions", "expect", ".expect(\"\");"),
   -- model: indexInscriptions `total_input_value - total_output_value` — discharged by Σ out ≤ Σ in (validChain.conserves) + value invariant; never reached for a coinbase (no new flotsam on a null input)
-  ("inscription_updater.rs", "index_inscriptions", "arith", "*fee = (total_input_value - total_output_value) / u64::from(id_counter);"),
+  ("inscription_updater.rs", "index_inscriptions", "arith", "*_ = (_ - _) / u64::from(_);"),
   -- model: indexInscriptions `division by zero` — a new flotsam implies id_counter ≥ 1 (proved: `ScanOk` through scanOld/scanNew/scanInputs, used in `indexInscriptions_U`)
-  ("inscription_updater.rs", "index_inscriptions", "div", "*fee = (total_input_value - total_output_value) / u64::from(id_counter);"),
+  ("inscription_updater.rs", "index_inscriptions", "div", "*_ = (_ - _) / u64::from(_);"),
   -- ≤ Σ out ≤ 21M BTC
-  ("inscription_updater.rs", "index_inscriptions", "arith", "let end = output_value + txout.value.to_sat();"),
+  ("inscription_updater.rs", "index_inscriptions", "arith", "let _ = _ + _.value.to_sat();"),
   -- usize→u32 / u32→usize `try_into`: bounded by the number of transactions / outputs of a block (block size ≤ 4 MB); not modelled
-  ("inscription_updater.rs", "index_inscriptions", "unwrap", "vout: vout.try_into().unwrap(),"),
+  ("inscription_updater.rs", "index_inscriptions", "unwrap", "_: _.try_into().unwrap(),"),
   -- flotsam sorted by offset and all earlier outputs consumed offsets < output_value: offset ≥ output_value (model: truncated `-`; loop invariant of assignOutputs)
-  ("inscription_updater.rs", "index_inscriptions", "arith", "offset: flotsam.offset - output_value,"),
+  ("inscription_updater.rs", "index_inscriptions", "arith", "_: _.offset - _,"),
   -- `peek()` returned Some just above
-  ("inscription_updater.rs", "index_inscriptions", "unwrap", "inscriptions.next().unwrap(),"),
+  ("inscription_updater.rs", "index_inscriptions", "unwrap", "_.next().unwrap(),"),
   -- model: updateInscriptionLocation `output_utxo_entries[vout]` — vout < tx.output.len() by construction of new_locations (proved: `assignOutputs_vout` + length bookkeeping in `uilFinish_U`/`applyLocations_U`/`indexTxMid_U`)
-  ("inscription_updater.rs", "index_inscriptions", "index", "&mut output_utxo_entries[usize::try_from(new_satpoint.outpoint.vout).unwrap()];"),
+  ("inscription_updater.rs", "index_inscriptions", "index", "&mut _[usize::try_from(_.outpoint.vout).unwrap()];"),
   -- usize→u32 / u32→usize `try_into`: bounded by the number of transactions / outputs of a block (block size ≤ 4 MB); not modelled
-  ("inscription_updater.rs", "index_inscriptions", "unwrap", "&mut output_utxo_entries[usize::try_from(new_satpoint.outpoint.vout).unwrap()];"),
+  ("inscription_updater.rs", "index_inscriptions", "unwrap", "&mut _[usize::try_from(_.outpoint.vout).unwrap()];"),
   -- flotsam sorted by offset and all earlier outputs consumed offsets < output_value: offset ≥ output_value (model: truncated `-`; loop invariant of assignOutputs)
-  ("inscription_updater.rs", "index_inscriptions", "arith", "offset: self.lost_sats + flotsam.offset - output_value,"),
+  ("inscription_updater.rs", "index_inscriptions", "arith", "_: self.lost_sats + _.offset - _,"),
   -- flotsam sorted by offset and all earlier outputs consumed offsets < output_value: offset ≥ output_value (model: truncated `-`; loop invariant of assignOutputs)
-  ("inscription_updater.rs", "index_inscriptions", "arith", "offset: self.lost_sats + flotsam.offset - output_value,"),
+  ("inscription_updater.rs", "index_inscriptions", "arith", "_: self.lost_sats + _.offset - _,"),
   -- model: indexInscriptions `self.reward - output_value` — discharged by coinbase ≤ subsidy + fees (validChain.coinbaseWithinReward) + reward invariant
-  ("inscription_updater.rs", "index_inscriptions", "arith", "self.lost_sats += self.reward - output_value;"),
+  ("inscription_updater.rs", "index_inscriptions", "arith", "self.lost_sats += self.reward - _;"),
   -- model: indexInscriptions `self.reward - output_value` — discharged by coinbase ≤ subsidy + fees (validChain.coinbaseWithinReward) + reward invariant
-  ("inscription_updater.rs", "index_inscriptions", "arith", "self.lost_sats += self.reward - output_value;"),
+  ("inscription_updater.rs", "index_inscriptions", "arith", "self.lost_sats += self.reward - _;"),
   -- flotsam sorted by offset and all earlier outputs consumed offsets < output_value: offset ≥ output_value (model: truncated `-`; loop invariant of assignOutputs)
-  ("inscription_updater.rs", "index_inscriptions", "arith", "offset: self.reward + flotsam.offset - output_value,"),
+  ("inscription_updater.rs", "index_inscriptions", "arith", "_: self.reward + _.offset - _,"),
   -- flotsam sorted by offset and all earlier outputs consumed offsets < output_value: offset ≥ output_value (model: truncated `-`; loop invariant of assignOutputs)
-  ("inscription_updater.rs", "index_inscriptions", "arith", "offset: self.reward + flotsam.offset - output_value,"),
+  ("inscription_updater.rs", "index_inscriptions", "arith", "_: self.reward + _.offset - _,"),
   -- model: indexInscriptions `total_input_value - output_value` — discharged by Σ out ≤ Σ in (validChain.conserves) + value invariant
-  ("inscription_updater.rs", "index_inscriptions", "arith", "self.reward += total_input_value - output_value;"),
+  ("inscription_updater.rs", "index_inscriptions", "arith", "self.reward += _ - _;"),
   -- model: indexInscriptions `total_input_value - output_value` — discharged by Σ out ≤ Σ in (validChain.conserves) + value invariant
-  ("inscription_updater.rs", "index_inscriptions", "arith", "self.reward += total_input_value - output_value;"),
+  ("inscription_updater.rs", "index_inscriptions", "arith", "self.reward += _ - _;"),
   -- `?` sites: errors of redb, the RPC client or a channel (environment, DESIGN §4): the model has no `.err` branch (c16_never_err)
   ("inscription_updater.rs", "index_inscriptions", "try-count", "6"),
   -- `chunks_exact(11)` chunk → `[u8; 11]`: length is 11 by construction; not modelled
-  ("inscription_updater.rs", "calculate_sat", "unwrap", "let (start, end) = SatRange::load(chunk.try_into().unwrap());"),
+  ("inscription_updater.rs", "calculate_sat", "unwrap", "let (_, _) = SatRange::load(_.try_into().unwrap());"),
   -- stored range start ≤ end (C01); model truncated `-`
-  ("inscription_updater.rs", "calculate_sat", "arith", "let size = end - start;"),
+  ("inscription_updater.rs", "calculate_sat", "arith", "let _ = _ - _;"),
   -- ≤ Σ input values
-  ("inscription_updater.rs", "calculate_sat", "arith", "if offset + size > input_offset {"),
+  ("inscription_updater.rs", "calculate_sat", "arith", "if _ + _ > _ {"),
   -- offset ≤ input_offset < offset + size here; result < end ≤ 2.1e15
-  ("inscription_updater.rs", "calculate_sat", "arith", "let n = start + input_offset - offset;"),
+  ("inscription_updater.rs", "calculate_sat", "arith", "let _ = _ + _ - _;"),
   -- offset ≤ input_offset < offset + size here; result < end ≤ 2.1e15
-  ("inscription_updater.rs", "calculate_sat", "arith", "let n = start + input_offset - offset;"),
+  ("inscription_updater.rs", "calculate_sat", "arith", "let _ = _ + _ - _;"),
   -- ≤ Σ input values
-  ("inscription_updater.rs", "calculate_sat", "arith", "offset += size;"),
+  ("inscription_updater.rs", "calculate_sat", "arith", "_ += _;"),
   -- model: calculateSat `calculate_sat: unreachable!()` — discharged by offset < Σ input ranges (c16_calculate_sat_ok)
   ("inscription_updater.rs", "calculate_sat", "panic", "unreachable!()"),
   -- `?` sites: errors of redb, the RPC client or a channel (environment, DESIGN §4): the model has no `.err` branch (c16_never_err)
@@ -169,13 +169,13 @@ def expected : List (String × String × String × String) := [
   -- model: `sequence_number_to_entry.get(&sequence_number).unwrap()` (burn of an old inscription) — `EntriesOk`
   ("inscription_updater.rs", "update_inscription_location", "unwrap", ".unwrap()"),
   -- model: `inscription count try_into::<i32>().unwrap()` — discharged by validChain.fewInscriptions (< 2^31)
-  ("inscription_updater.rs", "update_inscription_location", "unwrap", "let number: i32 = self.cursed_inscription_count.try_into().unwrap();"),
+  ("inscription_updater.rs", "update_inscription_location", "unwrap", "let _: i32 = self.cursed_inscription_count.try_into().unwrap();"),
   -- u64 counter < 2^31
   ("inscription_updater.rs", "update_inscription_location", "arith", "self.cursed_inscription_count += 1;"),
   -- i32 `number + 1` overflows only at number = i32::MAX, i.e. with exactly 2^31 - 1 cursed inscriptions already indexed: excluded by validChain.fewInscriptions (< 2^31 - 1 envelopes in total); the model's branch fires one later, at 2^31 (see notes)
-  ("inscription_updater.rs", "update_inscription_location", "arith", "-(number + 1)"),
+  ("inscription_updater.rs", "update_inscription_location", "arith", "-(_ + 1)"),
   -- model: `inscription count try_into::<i32>().unwrap()` — discharged by validChain.fewInscriptions
-  ("inscription_updater.rs", "update_inscription_location", "unwrap", "let number: i32 = self.blessed_inscription_count.try_into().unwrap();"),
+  ("inscription_updater.rs", "update_inscription_location", "unwrap", "let _: i32 = self.blessed_inscription_count.try_into().unwrap();"),
   -- u64 counter < 2^31
   ("inscription_updater.rs", "update_inscription_location", "arith", "self.blessed_inscription_count += 1;"),
   -- u32, < 2^32 inscriptions (fewInscriptions gives < 2^32 in total)
@@ -187,85 +187,85 @@ def expected : List (String × String × String × String) := [
   -- u64 counter ≤ number of inscriptions
   ("inscription_updater.rs", "update_inscription_location", "arith", "self.unbound_inscriptions += 1;"),
   -- model: `assert!(Index::is_special_outpoint(satpoint.outpoint))` — callers pass `None` only with the null outpoint, or unbound was set (proved: `uilFinish_U`, `applyLost_U`)
-  ("inscription_updater.rs", "update_inscription_location", "assert", "assert!(Index::is_special_outpoint(satpoint.outpoint));"),
+  ("inscription_updater.rs", "update_inscription_location", "assert", "assert!(Index::is_special_outpoint(_.outpoint));"),
   -- `?` sites: errors of redb, the RPC client or a channel (environment, DESIGN §4): the model has no `.err` branch (c16_never_err)
   ("inscription_updater.rs", "update_inscription_location", "try-count", "18"),
   -- Lot +=: model addLot `lot overflow` (mint) — supply bound: PROVED unreachable on valid chains (rune lift C08, `RuneLift.rune_pass_ok`)
-  ("rune_updater.rs", "index_runes", "arith", "*unallocated.entry(id).or_default() += amount;"),
+  ("rune_updater.rs", "index_runes", "arith", "*_.entry(_).or_default() += _;"),
   -- Lot +=: model addLot `lot overflow` (premine) — discharged by the supply bound: PROVED unreachable on valid chains (rune lift C08, `RuneLift.rune_pass_ok`, `c16_no_failure_partial`)
-  ("rune_updater.rs", "index_runes", "arith", "*unallocated.entry(id).or_default() +="),
+  ("rune_updater.rs", "index_runes", "arith", "*_.entry(_).or_default() +="),
   -- etched = Some only if runestone.etching is Some (fn etched); model createRuneEntry/`etching.bind`
-  ("rune_updater.rs", "index_runes", "unwrap", "runestone.etching.unwrap().premine.unwrap_or_default();"),
+  ("rune_updater.rs", "index_runes", "unwrap", "_.etching.unwrap().premine.unwrap_or_default();"),
   -- u32→usize: infallible on ≥32-bit targets
-  ("rune_updater.rs", "index_runes", "unwrap", "let output = usize::try_from(output).unwrap();"),
+  ("rune_updater.rs", "index_runes", "unwrap", "let _ = usize::try_from(_).unwrap();"),
   -- model: applyEdict `assert!(output <= tx.output.len())` — discharged by validChain.edictsInRange (what Runestone::decipher guarantees)
-  ("rune_updater.rs", "index_runes", "assert", "assert!(output <= tx.output.len());"),
+  ("rune_updater.rs", "index_runes", "assert", "assert!(_ <= _.output.len());"),
   -- Lot -=: model allocate `lot underflow` — amounts are capped by the balance (proved: `allocate_within`, `split_sum_le`, `applyEdict_within`)
-  ("rune_updater.rs", "index_runes", "arith", "*balance -= amount;"),
+  ("rune_updater.rs", "index_runes", "arith", "*_ -= _;"),
   -- model: allocate `allocated[output]` — output < tx.output.len() on this branch (proved: `allocate_within`, `applyEdict_within`)
-  ("rune_updater.rs", "index_runes", "index", "*allocated[output].entry(id).or_default() += amount;"),
+  ("rune_updater.rs", "index_runes", "index", "*_[_].entry(_).or_default() += _;"),
   -- Lot +=: model allocate/addLot `lot overflow` (allocated[output]) — supply bound: PROVED unreachable on valid chains (rune lift C08, `RuneLift.rune_pass_ok`)
-  ("rune_updater.rs", "index_runes", "arith", "*allocated[output].entry(id).or_default() += amount;"),
+  ("rune_updater.rs", "index_runes", "arith", "*_[_].entry(_).or_default() += _;"),
   -- Lot / u128 with destinations non-empty (guarded by `!destinations.is_empty()`); model `balance / dests.length` under `dests.isEmpty = false`
-  ("rune_updater.rs", "index_runes", "div", "let amount = *balance / destinations.len() as u128;"),
+  ("rune_updater.rs", "index_runes", "div", "let _ = *_ / _.len() as u128;"),
   -- as above; divisor non-zero
-  ("rune_updater.rs", "index_runes", "rem", "let remainder = usize::try_from(*balance % destinations.len() as u128).unwrap();"),
+  ("rune_updater.rs", "index_runes", "rem", "let _ = usize::try_from(*_ % _.len() as u128).unwrap();"),
   -- remainder < destinations.len() (usize)
-  ("rune_updater.rs", "index_runes", "unwrap", "let remainder = usize::try_from(*balance % destinations.len() as u128).unwrap();"),
+  ("rune_updater.rs", "index_runes", "unwrap", "let _ = usize::try_from(*_ % _.len() as u128).unwrap();"),
   -- Lot + 1 where amount = balance / n < balance when remainder > 0: ≤ balance < 2^128
-  ("rune_updater.rs", "index_runes", "arith", "if i < remainder { amount + 1 } else { amount },"),
+  ("rune_updater.rs", "index_runes", "arith", "if _ < _ { _ + 1 } else { _ },"),
   -- Lot +=: model addLot `lot overflow` (premine) — discharged by the supply bound: PROVED unreachable on valid chains (rune lift C08, `RuneLift.rune_pass_ok`, `c16_no_failure_partial`)
-  ("rune_updater.rs", "index_runes", "arith", "*burned.entry(id).or_default() += balance;"),
+  ("rune_updater.rs", "index_runes", "arith", "*_.entry(_).or_default() += _;"),
   -- cenotaph case handled by the enclosing `if let Some(Artifact::Cenotaph(_))`; model matches on the artifact
   ("rune_updater.rs", "index_runes", "panic", "Artifact::Cenotaph(_) => unreachable!(),"),
   -- model: `assert!(pointer < allocated.len())` — discharged by validChain.pointerInRange (Runestone::decipher guarantees)
-  ("rune_updater.rs", "index_runes", "assert", ".inspect(|&pointer| assert!(pointer < allocated.len()))"),
+  ("rune_updater.rs", "index_runes", "assert", ".inspect(|&_| assert!(_ < _.len()))"),
   -- vout is the checked pointer or the index of an existing output; model `alloc[v]?.getD`
-  ("rune_updater.rs", "index_runes", "index", "*allocated[vout].entry(id).or_default() += balance;"),
+  ("rune_updater.rs", "index_runes", "index", "*_[_].entry(_).or_default() += _;"),
   -- Lot +=: model addLot `lot overflow` (premine) — discharged by the supply bound: PROVED unreachable on valid chains (rune lift C08, `RuneLift.rune_pass_ok`, `c16_no_failure_partial`)
-  ("rune_updater.rs", "index_runes", "arith", "*allocated[vout].entry(id).or_default() += balance;"),
+  ("rune_updater.rs", "index_runes", "arith", "*_[_].entry(_).or_default() += _;"),
   -- Lot +=: model addLot `lot overflow` (premine) — discharged by the supply bound: PROVED unreachable on valid chains (rune lift C08, `RuneLift.rune_pass_ok`, `c16_no_failure_partial`)
-  ("rune_updater.rs", "index_runes", "arith", "*burned.entry(id).or_default() += balance;"),
+  ("rune_updater.rs", "index_runes", "arith", "*_.entry(_).or_default() += _;"),
   -- vout enumerates `allocated` which has tx.output.len() elements
-  ("rune_updater.rs", "index_runes", "index", "if tx.output[vout].script_pubkey.is_op_return() {"),
+  ("rune_updater.rs", "index_runes", "index", "if _.output[_].script_pubkey.is_op_return() {"),
   -- Lot +=: model addLot `lot overflow` (premine) — discharged by the supply bound: PROVED unreachable on valid chains (rune lift C08, `RuneLift.rune_pass_ok`, `c16_no_failure_partial`)
-  ("rune_updater.rs", "index_runes", "arith", "*burned.entry(*id).or_default() += *balance;"),
+  ("rune_updater.rs", "index_runes", "arith", "*_.entry(*_).or_default() += *_;"),
   -- usize→u32 / u32→usize `try_into`: bounded by the number of transactions / outputs of a block (block size ≤ 4 MB); not modelled
-  ("rune_updater.rs", "index_runes", "unwrap", "vout: vout.try_into().unwrap(),"),
+  ("rune_updater.rs", "index_runes", "unwrap", "_: _.try_into().unwrap(),"),
   -- Lot +=: model addAllTo `lot overflow` (block burned) — supply bound: PROVED unreachable on valid chains (rune lift C08, `RuneLift.rune_pass_ok`)
-  ("rune_updater.rs", "index_runes", "arith", "*self.burned.entry(id).or_default() += amount;"),
+  ("rune_updater.rs", "index_runes", "arith", "*self.burned.entry(_).or_default() += _;"),
   -- `?` sites: errors of redb, the RPC client or a channel (environment, DESIGN §4): the model has no `.err` branch (c16_never_err)
   ("rune_updater.rs", "index_runes", "try-count", "8"),
   -- model: flushBurned `id_to_entry.get(rune_id).unwrap()` — burned ids have entries: PROVED on valid chains (rune lift, `RuneLift.rune_pass_ok`)
-  ("rune_updater.rs", "update", "unwrap", "let mut entry = RuneEntry::load(self.id_to_entry.get(&rune_id.store())?.unwrap().value());"),
+  ("rune_updater.rs", "update", "unwrap", "let mut _ = RuneEntry::load(self.id_to_entry.get(&_.store())?.unwrap().value());"),
   -- model: flushBurned `entry.burned.checked_add(burned).unwrap()` — supply bound: PROVED unreachable on valid chains (rune lift C08, `RuneLift.rune_pass_ok`)
-  ("rune_updater.rs", "update", "unwrap", "entry.burned = entry.burned.checked_add(burned.n()).unwrap();"),
+  ("rune_updater.rs", "update", "unwrap", "_.burned = _.burned.checked_add(_.n()).unwrap();"),
   -- `?` sites: errors of redb, the RPC client or a channel (environment, DESIGN §4): the model has no `.err` branch (c16_never_err)
   ("rune_updater.rs", "update", "try-count", "2"),
   -- u64 counter of runes
   ("rune_updater.rs", "create_rune_entry", "arith", "self.runes += 1;"),
   -- etched = Some with a Runestone artifact only if etching is Some; model `default` branch unreachable
-  ("rune_updater.rs", "create_rune_entry", "unwrap", "} = etching.unwrap();"),
+  ("rune_updater.rs", "create_rune_entry", "unwrap", "} = _.unwrap();"),
   -- `?` sites: errors of redb, the RPC client or a channel (environment, DESIGN §4): the model has no `.err` branch (c16_never_err)
   ("rune_updater.rs", "create_rune_entry", "try-count", "7"),
   -- u64 counter
-  ("rune_updater.rs", "etched", "arith", ".insert(&Statistic::ReservedRunes.into(), reserved_runes + 1)?;"),
+  ("rune_updater.rs", "etched", "arith", ".insert(&Statistic::ReservedRunes.into(), _ + 1)?;"),
   -- `?` sites: errors of redb, the RPC client or a channel (environment, DESIGN §4): the model has no `.err` branch (c16_never_err)
   ("rune_updater.rs", "etched", "try-count", "4"),
   -- u128 mints < cap ≤ 2^128 - 1 (mintable checked `mints < cap`)
-  ("rune_updater.rs", "mint", "arith", "rune_entry.mints += 1;"),
+  ("rune_updater.rs", "mint", "arith", "_.mints += 1;"),
   -- `?` sites: errors of redb, the RPC client or a channel (environment, DESIGN §4): the model has no `.err` branch (c16_never_err)
   ("rune_updater.rs", "mint", "try-count", "2"),
   -- `can't get input transaction`: the node knows every spent transaction of a valid chain (validChain.nodeAnswers; the model folds this into `confHeight = none`)
   ("rune_updater.rs", "tx_commits_to_rune", "panic", "panic!("),
   -- the node's transaction has the spent output (valid chain); not a model branch (emitter computes `taproot`)
-  ("rune_updater.rs", "tx_commits_to_rune", "index", "let taproot = tx_info.vout[input.previous_output.vout.into_usize()]"),
+  ("rune_updater.rs", "tx_commits_to_rune", "index", "let _ = _.vout[_.previous_output.vout.into_usize()]"),
   -- model: txCommitsToRune `get_block_header_info(blockhash).unwrap()` — discharged by validChain.nodeAnswers (confHeight present: spent tx is confirmed)
-  ("rune_updater.rs", "tx_commits_to_rune", "unwrap", ".get_block_header_info(&tx_info.blockhash.unwrap())"),
+  ("rune_updater.rs", "tx_commits_to_rune", "unwrap", ".get_block_header_info(&_.blockhash.unwrap())"),
   -- model: same branch as `blockhash.unwrap()` (header of a block the node served exists)
   ("rune_updater.rs", "tx_commits_to_rune", "unwrap", ".unwrap()"),
   -- usize→u32 of a block height
-  ("rune_updater.rs", "tx_commits_to_rune", "unwrap", ".checked_sub(commit_tx_height.try_into().unwrap())"),
+  ("rune_updater.rs", "tx_commits_to_rune", "unwrap", ".checked_sub(_.try_into().unwrap())"),
   -- model: txCommitsToRune `height.checked_sub(commit_tx_height).unwrap()` — validChain.nodeAnswers (confHeight ≤ height)
   ("rune_updater.rs", "tx_commits_to_rune", "unwrap", ".unwrap()"),
   -- u32 height difference + 1
@@ -273,13 +273,13 @@ def expected : List (String × String × String × String) := [
   -- `?` sites: errors of redb, the RPC client or a channel (environment, DESIGN §4): the model has no `.err` branch (c16_never_err)
   ("rune_updater.rs", "tx_commits_to_rune", "try-count", "3"),
   -- i < buffer.len() by the loop condition
-  ("rune_updater.rs", "unallocated", "index", "let ((id, balance), len) = Index::decode_rune_balance(&buffer[i..]).unwrap();"),
+  ("rune_updater.rs", "unallocated", "index", "let ((_, _), _) = Index::decode_rune_balance(&_[_..]).unwrap();"),
   -- table value was written by encode_rune_balance (C35 storage round-trip); model keeps decoded balances
-  ("rune_updater.rs", "unallocated", "unwrap", "let ((id, balance), len) = Index::decode_rune_balance(&buffer[i..]).unwrap();"),
+  ("rune_updater.rs", "unallocated", "unwrap", "let ((_, _), _) = Index::decode_rune_balance(&_[_..]).unwrap();"),
   -- ≤ buffer.len()
-  ("rune_updater.rs", "unallocated", "arith", "i += len;"),
+  ("rune_updater.rs", "unallocated", "arith", "_ += _;"),
   -- Lot +=: model takeInputs/addLot `lot overflow` — supply bound: PROVED unreachable on valid chains (rune lift C08, `RuneLift.rune_pass_ok`)
-  ("rune_updater.rs", "unallocated", "arith", "*unallocated.entry(id).or_default() += balance;"),
+  ("rune_updater.rs", "unallocated", "arith", "*_.entry(_).or_default() += _;"),
   -- `?` sites: errors of redb, the RPC client or a channel (environment, DESIGN §4): the model has no `.err` branch (c16_never_err)
   ("rune_updater.rs", "unallocated", "try-count", "1")]
 
